@@ -17,6 +17,12 @@ CHECKS = {
  "C13": dict(level="model_checking", design="4/C13", technique="TLA+ MC_Lease exhaustive (TLC) + TLC trace validation (LeaseTrace), all 256 message types enumerated",
    text="C13Step (gate on type/server-id, store untouched without reply, only the assigned row touched, header echo and server-id) on all model transitions and on every recorded handle_pkt call, with every message type 0..255 and none, with/without/foreign server-id, on populated tables.",
    note="table snapshots before/after each message are read by the harness's own SQL"),
+ "C18": dict(level="model_checking", design="4/C18", technique="TLA+ DhcpStore exhaustive over all crash points (TLC) + TLC trace validation (StoreTrace) of real opens on every model-reachable file state, restart-equivalence pairs, and SIGKILL at every write syscall (strace injection)",
+   text="TLC checks C18a-d on every interleaving of the statement-level open/migrate/allocate step machine with a crash between any two steps, from fresh, pre-versioning, current and newer files; every file state the model reaches is constructed and handed to the real Pool; every scenario is run with and without a restart and the replies compared; the real process is SIGKILLed on entry to each pwrite64/fdatasync/unlink on the database or journal and the file reopened (acknowledged leases present, no partial row).",
+   note="SQLite atomic commit assumed in the model, exercised in the SIGKILL runs; process kill, not power loss; the harness constructs and inspects files with its own rusqlite connection"),
+ "C20": dict(level="model_checking", design="4/C20", technique="TLC trace validation (LeaseTrace observers Metrics/List) of get_pool_metrics / get_leases after every step of replayed histories; MC_Lease exhaustive for the store the observers read",
+   text="After every step of every replayed history (incl. ticks to expiry-1/expiry/expiry+1 and the empty store) the gauges must equal |expiry>now| and |expiry<=now| for some instant inside the logged call interval and get_leases() must return exactly the stored rows, evaluated by TLC against the follower's table.",
+   note="function level (Pool) only so far; the HTTP/JSON rendering is not yet driven"),
 }
 NOT_APPLICABLE = []
 
